@@ -334,6 +334,8 @@ func (e *Exec) newArr(et types.Type, n int) *ArrM {
 		z := zeroTerm(s)
 		cells := make([]Cell, n)
 		for i := range am.elems {
+			e.cellCtr++
+			cells[i].id = e.cellCtr
 			cells[i].v = z
 			cells[i].parent = am
 			cells[i].pidx = i
@@ -365,6 +367,9 @@ func (e *Exec) load(c *Cell) Value {
 		}
 		return ArrayV{el}
 	}
+	if e.race != nil {
+		e.raceOnAccess(c, false)
+	}
 	return c.v
 }
 
@@ -395,6 +400,9 @@ func (e *Exec) store(c *Cell, v Value) {
 	if e.ifc != nil {
 		e.ifcStore(c, v)
 		return
+	}
+	if e.race != nil {
+		e.raceOnAccess(c, true)
 	}
 	c.v = v
 }
